@@ -17,42 +17,50 @@ class Err:
         return 'Err(%r, %r)' % (self.code, self.message)
 
 
-class XrlError(C.Structure):
-    _fields_ = [('code', C.c_int), ('message', C.c_char_p)]
-
-
 class Complex(C.Structure):
     _fields_ = [('re', C.c_double), ('im', C.c_double)]
 
 
-class CompoundData(C.Structure):
-    _fields_ = [('nElements', C.c_int), ('nAtomsAll', C.c_double), ('Elements', C.POINTER(C.c_int)),
-                ('massFractions', C.POINTER(C.c_double)), ('nAtoms', C.POINTER(C.c_double)), ('molarMass', C.c_double)]
+# The public structs are bound as the headers of the CURRENT tree declare them: a compiled probe (build.layout) gives offset, size and kind
+# of every field, and the ctypes classes are made from that.  A field that changes type or place is then read as what it now is, and the
+# oracles judge the VALUE they get (a float-narrowed volume, say) instead of reading garbage through a stale binding.
+_FLT = {4: C.c_float, 8: C.c_double, 16: C.c_longdouble}
+_INT = {1: C.c_int8, 2: C.c_int16, 4: C.c_int32, 8: C.c_int64}
+_UNS = {1: C.c_uint8, 2: C.c_uint16, 4: C.c_uint32, 8: C.c_uint64}
+_PTR = {'s': C.c_char_p, 'f4': C.POINTER(C.c_float), 'f8': C.POINTER(C.c_double), 'i4': C.POINTER(C.c_int32), 'u4': C.POINTER(C.c_uint32),
+        'i2': C.POINTER(C.c_int16), 'i8': C.POINTER(C.c_int64)}
+LAYOUT = build.layout()
 
 
-class CompoundDataNIST(C.Structure):
-    _fields_ = [('name', C.c_char_p), ('nElements', C.c_int), ('Elements', C.POINTER(C.c_int)),
-                ('massFractions', C.POINTER(C.c_double)), ('density', C.c_double)]
+def _struct(pyname, key, objptr=None):
+    lay = LAYOUT[key]
+    fields = []
+    for f in sorted(lay['fields'], key=lambda f: f['offset']):
+        if f['kind'] == 'f':
+            t = _FLT[f['size']]
+        elif f['kind'] == 'i':
+            t = _INT[f['size']]
+        elif f['kind'] == 'u':
+            t = _UNS[f['size']]
+        elif f['pkind'] == 'o':
+            t = (objptr or {}).get(f['name'], C.c_void_p)
+        else:
+            t = _PTR[f['pkind']]
+        fields.append((f['name'], t))
+    cls = type(pyname, (C.Structure,), {'_fields_': fields})
+    bad = [f['name'] for f in lay['fields'] if getattr(cls, f['name']).offset != f['offset']]
+    if bad or C.sizeof(cls) != lay['size']:
+        raise build.BuildError('ctypes cannot reproduce the layout of %s (fields %s, size %d vs %d)' % (key, bad, C.sizeof(cls), lay['size']))
+    return cls
 
 
-class RadioNuclideData(C.Structure):
-    _fields_ = [('name', C.c_char_p), ('Z', C.c_int), ('A', C.c_int), ('N', C.c_int), ('Z_xray', C.c_int),
-                ('nXrays', C.c_int), ('XrayLines', C.POINTER(C.c_int)), ('XrayIntensities', C.POINTER(C.c_double)),
-                ('nGammas', C.c_int), ('GammaEnergies', C.POINTER(C.c_double)), ('GammaIntensities', C.POINTER(C.c_double))]
-
-
-class CrystalAtom(C.Structure):
-    _fields_ = [('Zatom', C.c_int), ('fraction', C.c_double), ('x', C.c_double), ('y', C.c_double), ('z', C.c_double)]
-
-
-class CrystalStruct(C.Structure):
-    _fields_ = [('name', C.c_char_p), ('a', C.c_double), ('b', C.c_double), ('c', C.c_double),
-                ('alpha', C.c_double), ('beta', C.c_double), ('gamma', C.c_double), ('volume', C.c_double),
-                ('n_atom', C.c_int), ('atom', C.POINTER(CrystalAtom))]
-
-
-class CrystalArray(C.Structure):
-    _fields_ = [('n_crystal', C.c_int), ('n_alloc', C.c_int), ('crystal', C.POINTER(CrystalStruct))]
+XrlError = _struct('XrlError', 'xrl_error')
+CompoundData = _struct('CompoundData', 'compoundData')
+CompoundDataNIST = _struct('CompoundDataNIST', 'compoundDataNIST')
+RadioNuclideData = _struct('RadioNuclideData', 'radioNuclideData')
+CrystalAtom = _struct('CrystalAtom', 'Crystal_Atom')
+CrystalStruct = _struct('CrystalStruct', 'Crystal_Struct', {'atom': C.POINTER(CrystalAtom)})
+CrystalArray = _struct('CrystalArray', 'Crystal_Array', {'crystal': C.POINTER(CrystalStruct)})
 
 
 EP = C.POINTER(C.POINTER(XrlError))
@@ -298,8 +306,9 @@ class XL:
         """a python-owned Crystal_Struct (keep the returned holder alive while it is in use)"""
         arr = (CrystalAtom * max(len(atoms), 1))()
         for k, a in enumerate(atoms):
-            arr[k] = CrystalAtom(*a)
-        cs = CrystalStruct(_b(name), cell[0], cell[1], cell[2], cell[3], cell[4], cell[5], volume, len(atoms), C.cast(arr, C.POINTER(CrystalAtom)))
+            arr[k] = CrystalAtom(Zatom=a[0], fraction=a[1], x=a[2], y=a[3], z=a[4])
+        cs = CrystalStruct(name=_b(name), a=cell[0], b=cell[1], c=cell[2], alpha=cell[3], beta=cell[4], gamma=cell[5], volume=volume,
+                           n_atom=len(atoms), atom=C.cast(arr, C.POINTER(CrystalAtom)))
         cs._keep = arr
         return cs
 
